@@ -1,3 +1,4 @@
+mod c05;
 mod c07;
 mod c08;
 mod c17;
@@ -21,6 +22,7 @@ fn all_checks() -> Vec<&'static dyn Check> {
         &termchecks::TermCheck(termchecks::Flavor::C02),
         &termchecks::TermCheck(termchecks::Flavor::C03),
         &termchecks::TermCheck(termchecks::Flavor::C04),
+        &c05::C05,
         &c07::C07,
         &c08::C08,
         &c17::C17,
